@@ -1,6 +1,6 @@
 (* C18 — Multiplexed peer messaging delivers whole messages on the right topic.  Statement of record. *)
 From Coq Require Import NArith List Bool Arith.
-From V Require Import Bytes Mux MuxProofs.
+From V Require Import Bytes Mux MuxProofs MuxSend.
 Import ListNotations.
 
 (* Any number of topics, any messages within the size limit, and ANY schedule of the sending goroutine (any interleaving of
@@ -31,6 +31,29 @@ Theorem C18_oversize_closes : forall lim maxmsg t msg, (0 < lim)%nat -> (maxmsg 
   receive maxmsg [] (packets_of lim t msg) = ([], false).
 Proof. exact oversize_closes. Qed.
 Print Assumptions C18_oversize_closes.
+
+(* The sending side, for every history of the topic's bounded send queue (sends that are accepted, sends that time out because the
+   queue stays full, the send service draining any number of packets in between): what has left the queue followed by what is still
+   in it is exactly the packets of the ACCEPTED messages, whole and in order - a message is queued whole or not at all... *)
+Theorem C18_send_queue_whole_messages : forall lim cap t ops, Forall (small lim cap t) ops ->
+  let s := srun (qsend lim cap t) ops in ss_wire s ++ ss_queue s = queue_of lim t (ss_accepted s).
+Proof. exact sender_whole. Qed.
+Print Assumptions C18_send_queue_whole_messages.
+(* ... so that, once drained, the receiver has delivered exactly the accepted messages and the connection is up *)
+Theorem C18_send_queue_to_inbox : forall lim cap maxmsg t ops, (0 < lim)%nat -> Forall (small lim cap t) ops ->
+  let s := srun (qsend lim cap t) ops in
+  ss_queue s = [] -> Forall (fun m => (length m <= maxmsg)%nat) (ss_accepted s) ->
+  snd (receive maxmsg [] (ss_wire s)) = true /\ on_topic t (fst (receive maxmsg [] (ss_wire s))) = ss_accepted s.
+Proof. exact sender_receiver. Qed.
+Print Assumptions C18_send_queue_to_inbox.
+(* the queueing before the repair recorded in KNOWN_FINDINGS.txt (packet by packet, each with its own time-out): a send that failed
+   after its first packet left that packet queued, and the receiver delivered a message nobody sent *)
+Example C18_old_partial_send_merges :
+  let s := srun (qsend_old 2 3 5%N) old_ops in
+  ss_accepted s = [[1]; [2]; [9]]%N /\ on_topic 5%N (fst (receive 100 [] (ss_wire s))) = [[1]; [2]; [3;4;9]]%N.
+Proof. exact old_partial_send_merges. Qed.
+Example C18_send_queue_nonvacuous : Forall (small 2 3 5%N) old_ops /\ ss_queue (srun (qsend 2 3 5%N) old_ops) = [].
+Proof. exact sender_nonvacuous. Qed.
 
 (* why all packets of a message must enter the topic queue back to back (the stream mutex in queueSends): a message whose
    packets are only partly on the wire is merged with the next one *)
